@@ -144,9 +144,18 @@ func c19Build(seed uint64, cell c19Cell) *c19Case {
 		others = append(others, nps...)
 	case "badPriority":
 		group = anps
-		var bad int32
+		var bad int64
 		fmt.Sscan(cell.detail, &bad)
-		injected = randANP(r, &f, "cfl-bad-prio", bad)
+		if bad == int64(int32(bad)) {
+			injected = randANP(r, &f, "cfl-bad-prio", int32(bad))
+		} else {
+			// a number that the typed field cannot hold: written into the manifest text
+			injected = randANP(r, &f, "cfl-bad-prio", 999)
+			if strings.Count(injected.Text, "priority: 999\n") != 1 {
+				panic("c19: priority line not found")
+			}
+			injected.Text = strings.Replace(injected.Text, "priority: 999\n", "priority: "+cell.detail+"\n", 1)
+		}
 		c.tokens = []string{"cfl-bad-prio", fmt.Sprint(bad)}
 		others = append(others, nps...)
 	case "dupANPName":
@@ -332,6 +341,11 @@ func c19Steps(c *c19Case) []job.Step {
 	if !c.admin {
 		st = append(st, job.Step{Kind: job.List, Dir: "a", Fmt: "txt", Exposure: true})
 	}
+	// narrowing the report must not narrow the validation: a workload that exists, one that does not, the synthetic one
+	st = append(st,
+		job.Step{Kind: job.List, Dir: "a", Fmt: "txt", Focus: "w0"},
+		job.Step{Kind: job.List, Dir: "a", Fmt: "csv", Focus: "no-such-workload"},
+		job.Step{Kind: job.List, Dir: "a", Fmt: "txt", Focus: "ingress-controller", API: "infos"})
 	return st
 }
 
@@ -448,7 +462,8 @@ func c19Cells(tier string, seed uint64) (cells []c19Cell, exhaustiveUpTo int) {
 			if n <= 1 && o != "sorted" {
 				continue
 			}
-			for _, bad := range []string{"-1", "1001", "5000", "-2147483648", "2147483647"} {
+			// the last four do not fit the field's 32 bits: 2^32+50, -2^32+50, 2^32, 2^63-1
+			for _, bad := range []string{"-1", "1001", "5000", "-2147483648", "2147483647", "4294967346", "-4294967246", "4294967296", "9223372036854775807"} {
 				for j := 0; j <= n; j++ {
 					add(c19Cell{kind: "badPriority", n: n, i: j, j: -1, order: o, detail: bad})
 				}
@@ -482,7 +497,7 @@ func c19Cells(tier string, seed uint64) (cells []c19Cell, exhaustiveUpTo int) {
 		n := r.between(full+1, 64)
 		i := r.intn(n)
 		add(c19Cell{kind: "samePriority", n: n, i: i, j: r.intn(n + 1), order: pick(r, c19Orders), detail: fmt.Sprint("s", k)})
-		add(c19Cell{kind: "badPriority", n: n, i: r.intn(n + 1), j: -1, order: pick(r, c19Orders), detail: pick(r, []string{"-1", "1001"})})
+		add(c19Cell{kind: "badPriority", n: n, i: r.intn(n + 1), j: -1, order: pick(r, c19Orders), detail: pick(r, []string{"-1", "1001", "4294967346"})})
 	}
 	return cells, full
 }
